@@ -33,9 +33,9 @@ good &= step("apply", "git apply %s" % patch, True)
 good &= step("build", "go build ./...", True)
 good &= step("suite with change", "go test -vet=off -count=1 ./...", True)
 shutil.copy(os.path.join(src, demo), os.path.join(wt, pkgdir, "zz_demo_test.go"))
-good &= step("demo with change (must fail)", "go test -vet=off -count=1 -run 'TestDemo' ./%s" % pkgdir, False)
+good &= step("demo with change (must fail)", "go test -vet=off -count=1 -run 'TestDemo|TestC20' ./%s" % pkgdir, False)
 sh("git apply -R %s" % patch)
-good &= step("demo without change (must pass)", "go test -vet=off -count=1 -run 'TestDemo' ./%s" % pkgdir, True)
+good &= step("demo without change (must pass)", "go test -vet=off -count=1 -run 'TestDemo|TestC20' ./%s" % pkgdir, True)
 os.remove(os.path.join(wt, pkgdir, "zz_demo_test.go"))
 sh("git checkout -q -- . && git clean -fdq")
 print("VERIFIED" if good else "REJECTED", pid, m)
